@@ -267,6 +267,6 @@ def run(ctx):
 
 
 def replay(case, ctx):
-    emb = tuple(case['embedding'])
+    emb = tuple(case.get('embedding') or ctx.embedding)
     sc = dict(scenarios())
     return [Violation.from_json(v) for v in _run((case['scenario'], sc[case['scenario']], case['kind'], emb))['viols']]
